@@ -22,7 +22,7 @@ def run(ctx):
     cl = codec.Classes()
     cl.check_driver()
     thorough = ctx.tier == "thorough"
-    idxs = codec.choose_classes(len(cl), rng, None if thorough else 420, ctx.seed)
+    idxs = codec.choose_classes(len(cl), rng, None if thorough else 420, ctx.seed, cl)
     per = 24 if thorough else 6
     insts = codec.gen_instances(cl, idxs, per, rng)
     tails = [b"", b"\x00", bytes(rng.getrandbits(8) for _ in range(5))]
